@@ -52,7 +52,7 @@ def reassign_ok(assign, best):
 
 
 # ----------------------------------------------------------------------------------------------- (B)
-def build_mps(torch, C, precs, seed, kind):
+def build_mps(torch, C, precs, seed, kind, counts=None):
     import torch.nn as nn
     from plinio.methods import MPS
     from plinio.methods.mps import MPSType, get_default_qinfo
@@ -60,6 +60,9 @@ def build_mps(torch, C, precs, seed, kind):
     torch.manual_seed(seed)
     if kind == 'conv3':
         net = nn.Sequential(nn.Conv2d(8, C, 3, padding=1), nn.ReLU(), nn.AdaptiveAvgPool2d(1), nn.Flatten(), nn.Linear(C, 4))
+        shape = (8, 6, 6)
+    elif kind == 'conv3only':      # a single searchable layer: the total cost is this layer's cost
+        net = nn.Sequential(nn.Conv2d(8, C, 3, padding=1))
         shape = (8, 6, 6)
     elif kind == 'conv1':
         net = nn.Sequential(nn.Conv2d(16, C, 1), nn.ReLU(), nn.AdaptiveAvgPool2d(1), nn.Flatten(), nn.Linear(C, 4))
@@ -75,6 +78,15 @@ def build_mps(torch, C, precs, seed, kind):
     with torch.no_grad():
         for n, p in m.named_nas_parameters():
             p.copy_(torch.randn(p.shape, generator=g))
+        if counts is not None:
+            # crafted start configuration: counts[i] channels at the i-th precision of the tuple (tie-free scores)
+            for n, l in m.seed.named_modules():
+                q = getattr(l, 'w_mps_quantizer', None)
+                if q is not None and q.alpha.dim() == 2 and q.alpha.shape == (len(precs), C):
+                    a = 0.01 * torch.rand(q.alpha.shape, generator=g)
+                    sel = torch.repeat_interleave(torch.arange(len(precs)), torch.tensor(list(counts)))
+                    a[sel, torch.arange(C)] += 1.0
+                    q.alpha.copy_(a)
     return m
 
 
@@ -172,12 +184,24 @@ def run(ctx):
     if not ctx.quick:
         for _ in range(40):
             configs.append((ctx.rng.choice([33, 36, 40, 48, 50, 64, 72]), ctx.rng.choice([(2, 4, 8), (2, 8), (4, 8), (0, 2, 4, 8), (2, 3, 4, 8), (0, 4, 8), (8, 2, 4)]), ctx.rng.choice(['conv3', 'conv1', 'dw', 'lin'])))
-    for idx, (C, precs, kind) in enumerate(configs):
+    # crafted start configurations (counts per precision): an empty higher precision, an empty middle one, counts that make
+    # the search pass through 32m+1 channels in one precision (NE16 tiles of 32), non power-of-two channel counts
+    crafted = [(32, (2, 4, 8), 'conv3only', (20, 12, 0)), (32, (2, 4, 8), 'conv3', (12, 0, 20)), (48, (2, 4, 8), 'conv3only', (15, 9, 24)),
+               (48, (2, 4, 8), 'conv3only', (12, 30, 6)), (48, (2, 4, 8), 'conv3only', (24, 18, 6)), (36, (2, 4, 8), 'conv3only', (3, 1, 32)),
+               (64, (2, 4, 8), 'dw', (40, 24, 0)), (48, (2, 8), 'conv3only', (15, 33)), (72, (2, 4, 8), 'conv3only', (7, 32, 33)), (32, (2, 4, 8), 'dw', (31, 1, 0))]
+    if not ctx.quick:
+        for _ in range(60):
+            C = ctx.rng.choice([32, 36, 40, 48, 64, 72, 96])
+            a = ctx.rng.randint(0, C)
+            b = ctx.rng.choice([0, 0, ctx.rng.randint(0, C - a)])
+            crafted.append((C, (2, 4, 8), ctx.rng.choice(['conv3only', 'conv3only', 'conv3', 'dw']), (a, b, C - a - b)))
+    configs = [c + (None,) for c in configs] + crafted
+    for idx, (C, precs, kind, counts) in enumerate(configs):
         seed = ctx.seed * 1000 + idx
-        rec = {'C': C, 'precisions': list(precs), 'kind': kind, 'seed': seed, 'layers': {}}
+        rec = {'C': C, 'precisions': list(precs), 'kind': kind, 'seed': seed, 'start_counts': counts, 'layers': {}}
         ascending = list(precs) == sorted(precs)
         try:
-            m = build_mps(torch, C, precs, seed, kind)
+            m = build_mps(torch, C, precs, seed, kind, counts)
             m.update_softmax_options(hard=True)
             m(m._input_example)
             layers = per_channel_layers(m)
@@ -223,7 +247,7 @@ def run(ctx):
             oracle(False, 'refine-raises-exception', {k: v for k, v in rec.items() if k != 'layers'})
         B.append(rec)
         changed = any(d['counts_before'] != d['counts_after'] for d in rec['layers'].values())
-        ctx.case(('B', C, precs, kind, seed), nontrivial=changed, kind='refine:%s:%s' % (kind, 'x'.join(map(str, precs))),
+        ctx.case(('B', C, precs, kind, seed, counts), nontrivial=changed, kind='refine:%s:%s%s' % (kind, 'x'.join(map(str, precs)), ':crafted' if counts else ''),
                  sample={k: v for k, v in rec.items() if k != 'layers'})
 
     for key, info in fails:
